@@ -371,8 +371,13 @@ def exec_call(ctx, league, op, tracer=None):
         rec["kw"] = kw
         if (len(teams) + len(kw)) % 3 == 0:
             # one call in three names its first argument, as the repository's own tests do
-            # (references always pass it positionally)
+            # (references always pass it positionally and the outcome by keyword)
             fn = lambda: league.model.rate(teams=teams, **kw)
+        elif (len(teams) + len(kw)) % 3 == 1 and ("ranks" in kw or "scores" in kw):
+            # one in three passes the outcome positionally, in the documented order
+            kw2 = dict(kw)
+            pos = (kw2.pop("ranks", None),) + ((kw2.pop("scores"),) if "scores" in kw2 else ())
+            fn = lambda: league.model.rate(teams, *pos, **kw2)
         else:
             fn = lambda: league.model.rate(teams, **kw)
     else:
@@ -642,7 +647,10 @@ class CallsDriver:
         if rng.random() < p.get("p_extreme", 0.0):
             return self.gen_extreme(rng)
         r = rng.random()
-        if p["threaded"] and r < 0.5:
+        cold = self.n_calls == 0 and not self.had_phase
+        if p["threaded"] and (r < 0.5 or (cold and r < 0.85)):
+            # (a service usually meets its first requests from several workers at once: the
+            # library is still cold then - nothing imported lazily, no table filled)
             op = self.gen_concurrent(rng, names)
             if op:
                 return op
@@ -734,7 +742,7 @@ class CallsDriver:
         groups = [pool[i * per:(i + 1) * per] for i in range(k)]
         threads = []
         frng = ctx.rng("faults")
-        predict_heavy = rng.random() < 0.15
+        predict_heavy = rng.random() < (0.4 if (self.n_calls == 0 and not self.had_phase) else 0.15)
         for g in groups:
             ops = []
             for _ in range(rng.randint(1, 3) if not predict_heavy else rng.randint(2, 4)):
@@ -808,6 +816,58 @@ class CallsDriver:
             if op is None:
                 break
             self.exec(op)
+        if ctx.prop == "C14":
+            self.probe_battery()
+
+    def probe_battery(self):
+        """At the end of every history: a fixed battery of valid calls (match-making queries for
+        lobbies of 2..13 players, tied games given as ints and as floats) on the long-lived
+        model, each compared with the same call on a fresh model in a PRISTINE import of the
+        library.  Whatever the history - interleavings and killed calls included - left in a
+        table, cache or latch anywhere in the process must not change what these calls
+        return, whether or not the workload itself happened to come back to the poisoned entry."""
+        ctx = self.ctx
+        import core
+
+        league = self.league
+        kw = ctx.cfg["kwargs"]
+        mu0, sg0, beta = dec(kw["mu"]), dec(kw["sigma"]), dec(kw["beta"])
+        d = league.dom
+        lib = core.fresh_models()
+        pre = model_state(league.model)
+
+        def values(sizes, salt):
+            out = []
+            for i, sz in enumerate(sizes):
+                team = []
+                for j in range(sz):
+                    mu, sg = d.clamp(mu0 + 0.37 * beta * ((salt + 3 * i + j) % 5 - 2), sg0 * (1.0 - 0.1 * ((i + j) % 4)))
+                    team.append([enc(float(mu)), enc(float(sg))])
+                out.append(team)
+            return out
+
+        def compare(what, out, ref, snap):
+            ctx.evaluations += 1
+            ctx.count("probe_battery_calls")
+            if out != ref:
+                ctx.violation("C14/result_differs_from_isolated:probe_after_history", {"probe": what, "snap": snap, "got": out, "isolated": ref, "pristine_library_copy": True})
+
+        for total in range(2, 14):
+            n_teams = 2 if total < 4 else (3 if total < 8 else 4)
+            sizes = [total // n_teams + (1 if i < total % n_teams else 0) for i in range(n_teams)]
+            snap = values(sizes, total)
+            for kind in ("draw", "rank", "win"):
+                teams = [[mk_rating(league.factory, dec(mu), dec(sg), "q%d_%d_%d" % (total, i, j), ctx.stats) for j, (mu, sg) in enumerate(t)] for i, t in enumerate(snap)]
+                st, val = call_outcome(lambda: do_predict(league.model, kind, teams))
+                out = ("ok", enc(val)) if st == "ok" else ("exc", type(val).__name__)
+                compare("predict_%s:%d_players" % (kind, total), out, ref_predict(ctx.cfg, snap, kind, "probe", stats=ctx.stats, lib=lib), snap)
+        snap = values([1, 2, 1], 7)
+        for label, rk in (("ranks_int_tie", {"ranks": [1, 1, 2]}), ("ranks_float_tie", {"ranks": [1.0, 1.0, 2.0]}), ("scores_int_tie", {"scores": [5, 9, 9]}), ("scores_float_tie", {"scores": [5.0, 9.0, 9.0]}), ("plain", {})):
+            teams = [[mk_rating(league.factory, dec(mu), dec(sg), "r%d_%d" % (i, j), ctx.stats) for j, (mu, sg) in enumerate(t)] for i, t in enumerate(snap)]
+            st, val = call_outcome(lambda: league.model.rate(teams, **{k: list(v) for k, v in rk.items()}))
+            out = ("ok", enc(result_values(val))) if st == "ok" else ("exc", type(val).__name__)
+            compare("rate:" + label, out, ref_rate(ctx.cfg, snap, {k: list(v) for k, v in rk.items()}, "probe", stats=ctx.stats, lib=lib), snap)
+        self.check_model(pre, "PROBES")
 
     def exec(self, op):
         ctx = self.ctx
@@ -1601,7 +1661,7 @@ class RejectDriver:
                     continue
                 # on rebuilt copies, so that the league's own history is not disturbed
                 teams = [[mk_rating(league.model, p.mu, p.sigma, p.name) for p in t] for t in league.teams_of(names)]
-                st, val = call_outcome(lambda: league.model.rate(teams, **kw))
+                st, val = call_outcome(lambda: faults.invoke(league.model, "rate", (teams,), kw))
                 ctx.evaluations += 1
                 ctx.count("wellformed_twin")
                 if st != "ok":
